@@ -516,7 +516,9 @@ def check(case, opts=None):
     width, ribbon, indent = case['cfg']
     with common.caught_warnings() as cw:
         try:
-            out = pp.pformat(w, width=width, ribbon_width=ribbon, indent=indent)
+            # sort_dict_keys is ON for the odd widths: the stdlib printers must rebuild an equal object (OrderedDict: equal ORDER) whatever
+            # the setting says about plain dict keys
+            out = pp.pformat(w, width=width, ribbon_width=ribbon, indent=indent, sort_dict_keys=bool(width % 2))
         except Exception as e:
             return ('pformat-raised', '%s: %s' % (type(e).__name__, e), 'pformat returns a str', '')
     if cw.bad:
